@@ -201,6 +201,65 @@ def string_layer(ctx):
         fnmap(ctx, 'grep', [pat], [], strings[:120], label='grep')
 
 
+def subst_layer(ctx):
+    """subst(pattern, repl, string) = re.sub and grepn(pattern, string, n) = re.search(...).group(n), literal patterns:
+    every occurrence is replaced, however many there are"""
+    alphabet = ['a', 'b', ':']
+    strings = ['']
+    for k in range(1, 7 if ctx.thorough() else 6):
+        strings += [''.join(t) for t in itertools.product(alphabet, repeat=k)]
+    strings += ['lala land la', 'Assets:A:B:C:D', 'aaaaaaa', 'abababab', 'x' * 40, 'a' * 9 + 'b', 'Aa aA AA aa']
+    for pat in ('a', ':', 'ab', 'aa', 'aba', 'zz', 'A', 'la'):
+        for repl in ('', 'X', 'ab', pat + pat, '/'):
+            fnmap(ctx, 'subst', [pat, repl], [], strings, label='subst')
+        for n in (0, 1):
+            fnmap(ctx, 'grepn', [pat], [n], strings[:200], label='grepn')
+
+
+def column_layer(ctx):
+    """the functions applied down a column by ONE compiled statement: every row gets the value of the function at its
+    own argument, also when arguments of different rows compare equal (5.0, 5.00 and 5; 1 and TRUE)"""
+    import impl
+    D = Decimal
+    cols = [('d', Decimal, [D('5.0'), D('5.00'), D('5'), D('1E+2'), D('100'), D('100.0'), D('1.50'), D('1.5'), D('0'), D('0.00'), None, D('-2.5'), D('-2.50')]),
+            ('i', int, [1, 0, 1, -5, 12, None, 0]),
+            ('b', bool, [True, False, True, None]),
+            ('o', object, [1, True, D('1.0'), D('1'), D('1.00'), 0, False, D('0.0'), D('0'), 'a', 'a', None, 2, D('2.0')]),
+            ('s', str, ['12', '12', ' 12', '1.50', '1.5', 'abc', '', None, '2020-1-2', '2020-01-02'])]
+    exprs = ['str({c})', 'int({c})', 'decimal({c})', 'bool({c})', 'neg({c})', 'abs({c})', 'round({c})', 'round({c}, 1)', 'round({c}, 3)',
+             'safediv({c}, 3)', 'safediv(1, {c})', 'length(str({c}))', 'str(neg({c}))', 'upper({c})', 'date({c})', 'maxwidth(str({c}), 5)',
+             "subst('0', 'o', str({c}))"]
+    for cname, ctype, values in cols:
+        table = impl.HTable('c', [(cname, ctype)], [(v,) for v in values])
+        conn = impl.connection([table])
+        for e in exprs:
+            text = 'SELECT %s AS y FROM #c' % e.format(c=cname)
+            try:
+                rows = conn.execute(text).fetchall()
+            except beanquery.CompilationError:
+                ctx.count('column:no-overload')
+                continue
+            except Exception as exc:  # noqa: BLE001
+                rows = None
+                got = ['ERR:' + type(exc).__name__]
+            if rows is not None:
+                got = [proto.show_value(r[0]) for r in rows]
+            # the same statement over one-row tables, one per value
+            want = []
+            for v in values:
+                c1 = impl.connection([impl.HTable('c', [(cname, ctype)], [(v,)])])
+                try:
+                    want.append(proto.show_value(c1.execute(text).fetchall()[0][0]))
+                except Exception as exc:  # noqa: BLE001
+                    want.append('ERR:' + type(exc).__name__)
+            ctx.evaluations += 1
+            ctx.count('column')
+            ctx.nontrivial_hashes.add(hash(('column', text)))
+            if got != want:
+                ctx.record_violation('column-differs-from-rows', '%s over %r: %r, row by row %r' % (text, values, got, want),
+                                     payload={'statement': text, 'values': values})
+
+
 def numeric_layer(ctx):
     decs = []
     for e in range(-3, 2):
@@ -322,6 +381,8 @@ def renamed_roots_layer(ctx):
 
 
 def run(ctx):
+    subst_layer(ctx)
+    column_layer(ctx)
     renamed_roots_layer(ctx)
     cast_layer(ctx)
     sql_sample(ctx)
